@@ -38,6 +38,16 @@ operations (the tag object's memory image lives on): no write command may
 reach the tag that is identical to the last write command the tag executed
 and answered for the same memory unit - see _WriteWatch.
 
+Mixed-kind legs (mixed, mixed_generated): the errors of one burst are NOT all
+of the same kind - a sequence over {timeout, transmission, protocol} of
+length 2..4 with command or response lost per element (a garbled frame, then
+silence: a tag pulled out of the field in the middle of a command),
+optionally with its last element persisting from then on - at a command
+position of every operation of every tag type.  Oracles (a), (b), (e) as
+above; (c) when the operation ends with a TagCommandError right after an
+exchange that failed, the reason code is that of the error of this LAST
+attempt (the error that persisted), not of an earlier attempt.
+
 Re-activation legs (reactivate_enum, reactivate): the Type 2 tag code senses
 the tag again after a NAK and after protect(password).  Faults there - tag
 not found, communication error inside sense(), tag out of the field from an
@@ -286,7 +296,10 @@ def execute(fixture, op, fault, desc=None):
         raise Violation("activation-failed", fixture)
     dev = clf.device
     base = dev.exchanges
-    if fault is not None:
+    if fault is not None and fault[0] == "seq":
+        _, k, seq, tail = fault
+        dev.script = _SeqScript(base + 1 + k, seq, tail)
+    elif fault is not None:
         k, kind, burst, phase = fault
         last = base + 1 + k + (burst if burst else 100000)
         dev.script = _Script(base + 1 + k, last, kind, phase)
@@ -317,6 +330,22 @@ class _Script(object):
         if isinstance(idx, int) and self.first <= idx < self.last:
             return (self.kind, self.phase)
         return None
+
+
+class _SeqScript(object):
+    """exchange first+i fails with seq[i] = (kind, phase); with tail the last
+    element goes on failing every later exchange"""
+
+    def __init__(self, first, seq, tail):
+        self.first, self.seq, self.tail = first, [tuple(x) for x in seq], tail
+
+    def get(self, idx):
+        if not isinstance(idx, int) or idx < self.first:
+            return None
+        i = idx - self.first
+        if i < len(self.seq):
+            return self.seq[i]
+        return self.seq[-1] if self.tail else None
 
 
 def answered(xlog):
@@ -452,6 +481,224 @@ def _c_exempt(fixture, op, err):
 
 def run(case, ctx):
     check(case, ctx)
+
+
+# ------------------------------------------------- bursts of mixed kinds
+_mixed_ref = {}
+
+
+def _last_failed_kind(xlog):
+    """kind of the communication error the LAST exchange ended with (injected,
+    or no response from the tag = timeout); None when it was answered"""
+    if not xlog:
+        return None
+    rsp = xlog[-1][2]
+    if rsp is None:
+        return "timeout"
+    if isinstance(rsp, str) and rsp.startswith("ERR:"):
+        return rsp[4:]
+    return None
+
+
+def check_mixed(case, ctx):
+    fixture, op = case["fixture"], case["op"]
+    desc = case.get("desc")
+    seq, tail = [list(x) for x in case["seq"]], bool(case.get("tail"))
+    kinds = [x[0] for x in seq]
+    ctx.label("mixed:%s:%s" % (fixture, op))
+    ctx.set_class("%s/%s" % (fixture, op))
+    key = (fixture, op)
+    ref = _mixed_ref.get(key) if desc is None else None
+    if ref is None:
+        try:
+            ref = execute(fixture, op, None, desc)
+        except NoRoom:
+            ctx.label("layout-without-room")
+            return
+        if "other" in ref:
+            raise unexpected(ref["other"], "fault-free-op-raises")
+        if desc is None:
+            _mixed_ref[key] = ref
+    k = case["k"]
+    if case.get("kmod") and ref["n"]:
+        k = k % ref["n"]
+    if k >= ref["n"]:
+        ctx.label("fault-beyond-operation")
+        return
+    is_t4 = ref["f"].kind == "t4t"
+    cls = "%s/%s/mixed-%s%s" % (fixture, op, "-".join(x[:2] for x in kinds),
+                                "-persistent" if tail else "")
+    if is_t4 and op == "present":
+        cls = "t4t/presence-check"
+    elif is_t4 and "protocol" in kinds:
+        cls = "t4t/protocol-error-burst"
+    ctx.set_class(cls)
+    run = execute(fixture, op, ("seq", k, seq, tail), desc)
+    budget = run["budget"]
+    target_cmd = ref["xlog"][k][1]
+    ss2 = ref["f"].kind == "t2t" and is_sector_select_2(ref["xlog"], k)
+    what = "errors %s%s from exchange %d (%s) on" % (
+        ", ".join("%s(%s lost)" % (a, "command" if b == "cmd" else "response")
+                  for a, b in seq),
+        ", the last one persisting" if tail else "", k,
+        (target_cmd or b"").hex()[:40])
+    # (a)
+    if "other" in run:
+        raise unexpected(run["other"], "raw-or-unrelated-exception",
+                         detail=what)
+    absorb = (budget + 1) // 2 if is_t4 else budget - 1
+    nonidem = any(_nonidempotent(fixture, op, ph) for _, ph in seq)
+    if not tail and len(seq) <= absorb and not ss2:
+        ctx.label("mixed:burst-below-budget")
+        ctx.nontrivial()
+        # (b)
+        if "error" in run and not nonidem:
+            raise Violation("transient-error-not-absorbed",
+                            "%s (budget %d attempts) raised %r"
+                            % (what, budget, run["error"]))
+        if "error" not in run:
+            if run["result"] != ref["result"]:
+                raise Violation("result-differs-from-fault-free",
+                                "%s: %r vs %r" % (what, run["result"],
+                                                  ref["result"]))
+            if run["mem"] != ref["mem"] and not nonidem:
+                raise Violation("memory-differs-from-fault-free", what)
+            if not is_t4 and not nonidem:
+                import collections
+                ca = collections.Counter(answered(run["xlog"]))
+                cb = collections.Counter(answered(ref["xlog"]))
+                extra = [c for c in ca if ca[c] > cb.get(c, 0)]
+                if extra:
+                    raise Violation(
+                        "answered-command-sent-again",
+                        "%s: %s answered %d times, fault-free %d"
+                        % (what, extra[0].hex()[:40], ca[extra[0]],
+                           cb.get(extra[0], 0)))
+    else:
+        ctx.label("mixed:persistent" if tail else
+                  "mixed:burst-at-or-over-budget")
+    # (c) the error that persisted names the cause: the operation ended with a
+    # TagCommandError right after a failed exchange - the last permitted
+    # attempt of a command - and reports the error of that attempt
+    last = _last_failed_kind(run["xlog"])
+    if "error" in run and last is not None and not ss2:
+        ctx.label("mixed:reason-code-judged")
+        # the attempts of the command that failed: the trailing failed
+        # exchanges with the same command bytes
+        cmd = run["xlog"][-1][1]
+        tried = []
+        for _, c, rsp, _ in reversed(run["xlog"]):
+            if c != cmd or isinstance(rsp, bytes):
+                break
+            tried.append("timeout" if rsp is None else rsp[4:])
+        tried.reverse()
+        if len(set(tried)) > 1:
+            ctx.label("mixed:attempts-of-failed-command-differ-in-kind")
+            ctx.nontrivial()
+        if run["error"].errno != ERRNO[last] and not _c_exempt(
+                fixture, op, run["error"]):
+            raise Violation(
+                "reason-code-mismatch",
+                "%s: the attempts of the last command (%s) failed with %s, "
+                "the operation raised %r (errno %d), the reason code of the "
+                "error that persisted (%s) is %d" % (
+                    what, (cmd or b"").hex()[:40], ", ".join(tried),
+                    run["error"], run["error"].errno, last, ERRNO[last]))
+    # (e) bounded effort
+    if tail and run["n"] > k + 3 * max(ref["n"], 4) + 20:
+        raise Violation("excessive-retries",
+                        "%s: %d exchanges after the error became persistent "
+                        "(fault-free run: %d)" % (what, run["n"] - k,
+                                                  ref["n"]))
+    ctx.label("mixed:error" if "error" in run else "mixed:returned")
+
+
+def mixed_sequences(length):
+    """all kind sequences of the length that are not of one single kind"""
+    import itertools
+    return [list(t) for t in itertools.product(KINDS, repeat=length)
+            if len(set(t)) > 1]
+
+
+PHASE_PATTERNS = ("cccc", "rrrr", "crcr", "rcrc", "ccrr", "rrcc", "crrc",
+                  "rccr")
+
+
+def _with_phases(kinds, pattern):
+    return [[kd, "cmd" if pattern[i] == "c" else "rsp"]
+            for i, kd in enumerate(kinds)]
+
+
+def enum_mixed(tier, seed):
+    quick = tier == "quick"
+    seqs = {n: mixed_sequences(n) for n in (2, 3, 4)}
+    count = seed
+    for fx in list(OPS):
+        for op in OPS[fx]:
+            try:
+                ref = execute(fx, op, None)
+            except Violation:
+                continue
+            n = ref["n"]
+            if not n:
+                continue
+            count += 1
+            if quick:
+                ks = sorted(set([0, 1 % n, n - 1, (2 + count) % n]))
+            else:
+                ks = sorted(set(list(range(0, min(n, 6))) +
+                                list(range(max(0, n - 4), n)) +
+                                list(range(6, n, max(1, n // 6)))))
+            for k in ks:
+                todo = list(seqs[2]) + list(seqs[3])
+                if quick:
+                    # a rotating dozen of the 78 sequences of four
+                    todo += [seqs[4][(count * 12 + j * 7) % len(seqs[4])]
+                             for j in range(12)]
+                else:
+                    todo += seqs[4]
+                for kinds in todo:
+                    count += 1
+                    if quick:
+                        # phases and persistence rotate instead of multiplying
+                        variants = [(PHASE_PATTERNS[count % 8],
+                                     count // 8 % 3 == 0)]
+                    else:
+                        variants = [(PHASE_PATTERNS[count % 8], False),
+                                    (PHASE_PATTERNS[(count + 3) % 8], True)]
+                    for pattern, tail in variants:
+                        yield {"fixture": fx, "op": op, "k": k,
+                               "seq": _with_phases(kinds, pattern),
+                               "tail": bool(tail)}
+
+
+def gen_mixed(tier):
+    descs = st.one_of(
+        tc.t2t_desc().map(lambda d: ("t2t", dict(d, size=min(d["size"], 40)))),
+        tc.t1t_desc().map(lambda d: (
+            "t1t" if d["size"] == 14 else "t1t-dyn",
+            dict(d, size=min(d["size"], 40), hr1=0))),
+        tc.t3t_desc().map(lambda d: ("t3t", dict(d, nmaxb=min(d["nmaxb"], 30)))),
+        tc.t4t_desc().map(lambda d: ("t4t", dict(
+            d, fsize=min(max(d["fsize"], 60), 400), wtx=0))))
+    element = st.tuples(st.sampled_from(KINDS), st.sampled_from(PHASES)).map(
+        list)
+
+    @st.composite
+    def s(draw):
+        fx, desc = draw(descs)
+        seq = draw(st.lists(element, min_size=2, max_size=4))
+        if len(set(x[0] for x in seq)) == 1:
+            # one kind only is the business of the other legs: change one
+            i = draw(st.integers(0, len(seq) - 1))
+            seq[i][0] = KINDS[(KINDS.index(seq[i][0]) +
+                               draw(st.integers(1, 2))) % 3]
+        return {"fixture": fx, "desc": desc, "kmod": True,
+                "op": draw(st.sampled_from(["ndef", "write", "present"])),
+                "k": draw(st.one_of(st.integers(0, 12),
+                                    st.integers(0, 100000))),
+                "seq": seq, "tail": draw(st.booleans())}
+    return s()
 
 
 # ------------------------------------------------------------ enumeration
@@ -1376,6 +1623,36 @@ LEGS = [
         shards_quick=4, shards_thorough=16, nt_floor=0.02,
         rule="generated layouts (C01 strategies, bounded size) x {ndef read, "
              "write, presence check} x generated fault; non-trivial as above."),
+    Leg("mixed", run=lambda case, ctx: check_mixed(case, ctx),
+        enum=enum_mixed, exhaustive=True, shards_quick=12,
+        shards_thorough=16,
+        rule="the fixtures and operations of leg enum x fault position "
+             "(quick: first, second, last and one rotating position; "
+             "thorough: both ends + samples) x error bursts of MIXED kinds: "
+             "every sequence over {timeout, transmission, protocol} of "
+             "length 2 (6) and 3 (24) that is not of one single kind and of "
+             "length 4 (quick: a rotating dozen of the 78; thorough: all), "
+             "each element with the command or the response lost (quick: one "
+             "of 8 phase patterns, rotating; thorough: two of them), the "
+             "burst ending there or its last element persisting from then on "
+             "(quick: every third case persists; thorough: both).  Oracles: "
+             "return or TagCommandError; a burst shorter than the retry "
+             "budget is absorbed (result, memory, answered commands equal "
+             "the fault-free run); when the operation ends with a "
+             "TagCommandError right after a failed exchange the reason code "
+             "is that of this last attempt, the error that persisted; "
+             "bounded effort.  non-trivial = the burst was below the budget "
+             "(absorption judged), or the attempts of the command the "
+             "operation gave up on failed with different kinds and the "
+             "reason code was judged."),
+    Leg("mixed_generated", run=lambda case, ctx: check_mixed(case, ctx),
+        gen=gen_mixed, quick=600, thorough=20000, shards_quick=4,
+        shards_thorough=16, nt_floor=0.1,
+        rule="generated layouts (as leg generated) x {ndef read, write, "
+             "presence check} x generated position x generated sequence of "
+             "2-4 errors of at least two kinds, command or response lost per "
+             "element, with or without the last one persisting; oracles and "
+             "non-trivial rule as in leg mixed."),
     Leg("felica_hist_enum", run=lambda case, ctx: check_history(case, ctx),
         enum=enum_histories, exhaustive=True, shards_quick=12,
         shards_thorough=16,
